@@ -322,13 +322,19 @@ static void parseQuery(void *inFrame, lltd_iface_state *st, void *iface_ctx) {
         max_descs = (mtu - sizeof(lltd_demultiplex_header_t) - sizeof(*respH)) / sizeof(lltd_probe_desc_wire_t);
     }
 
+    if (max_descs > 0x3FFF) {
+        max_descs = 0x3FFF; /* the two top bits of the count are the M(ore) and E(rror) flags */
+    }
     uint16_t num_descs = (st->see_list_count > max_descs) ? (uint16_t)max_descs : (uint16_t)st->see_list_count;
-    respH->numDescs = lltd_htons(num_descs);
+    /* What does not fit stays recorded and is announced with the M bit, so
+     * that the mapper's next Query fetches it instead of losing it. */
+    bool more = st->see_list_count > num_descs;
+    respH->numDescs = lltd_htons((uint16_t)(num_descs | (more ? 0x8000 : 0)));
     offset += sizeof(*respH);
 
-    probe_t *node = st->see_list;
     uint16_t remaining = num_descs;
-    while (node != NULL && remaining > 0) {
+    while (st->see_list != NULL && remaining > 0) {
+        probe_t *node = st->see_list;
         lltd_probe_desc_wire_t wire;
         lltd_port_memset(&wire, 0, sizeof(wire));
         wire.type = node->type; /* already network-order */
@@ -342,14 +348,15 @@ static void parseQuery(void *inFrame, lltd_iface_state *st, void *iface_ctx) {
         lltd_port_memcpy(buffer + offset, &wire, sizeof(wire));
         offset += sizeof(wire);
 
-        node = (probe_t *)node->nextProbe;
+        /* reported: drop it from the record */
+        st->see_list = (probe_t *)node->nextProbe;
+        st->see_list_count--;
+        lltd_port_free(node);
         remaining--;
     }
 
     (void)lltd_port_send_frame(iface_ctx, buffer, offset);
     lltd_port_free(buffer);
-
-    lltd_state_clear_seen_probes(st);
 }
 
 static void sendLargeTlvResponse(lltd_iface_state *st,
